@@ -85,10 +85,25 @@ def build(tier, seed):
             if a >= 1 and a <= 8:
                 gen.append('#[kani::proof] fn blob_padding_a%d() { blob_padding::<%d>() }' % (a, a))
                 hs.append(H('blob_padding_a%d' % a, desc='padding blob ends where the next member starts, align %d, any start offset/size <= 4096' % a, sample={'padding_align': a}, may_unsat=('padding starts unaligned',) if a == 1 else ()))
+        for a0, ta in itertools.product([1, 2, 4, 8], [1, 2, 4, 8]):
+            name = 'unit_after_a%d_t%d' % (a0, ta)
+            gen.append('#[kani::proof] #[kani::unwind(6)] fn %s() { unit_case::<%d, %d>() }' % (name, a0, ta))
+            hs.append(H(name, tier='quick' if (a0, ta) in ((1, 4), (2, 4), (1, 8), (4, 8), (4, 4), (8, 2), (1, 1)) else 'thorough', may_unsat=('bit-field pushed to the next boundary of its type',) if ta <= a0 or ta == 1 else (),
+                        desc='struct { M m0 (alignment %d, symbolic size); T f : w (T of size = alignment %d, any width) }: the allocation unit member pushed by the real tail of BitfieldUnit::codegen sits at the byte where C starts the bit-field; struct size agrees' % (a0, ta),
+                        sample={'member_align': a0, 'bitfield_type_size': ta, 'width': '1..%d' % (8 * ta)}))
         hs.append(H('tracker_never_panics_on_arbitrary_layouts', timeout=1500, weight=3, tier='thorough', desc='StructLayoutTracker call sequence on arbitrary (not C-consistent) layouts: no panic', sample={'sizes': '<= 2^32', 'aligns': '<= 4096 (any, incl. 0 and non powers of two)', 'offsets': '<= 2^35 bits or None'}))
         hs.append(H('layout_for_size_is_largest_pow2_divisor', desc='Layout::for_size_internal', sample='ptr size 4|8, size <= 2^20'))
         hs.append(H('align_to_is_least_multiple', desc='struct_layout::align_to', sample='size <= 2^40, align in {0,1,2,3,8,24,64}'))
-        har = open(os.path.join(G, 'harness', 'c02.rs')).read().replace('/*GENERATED*/', '\n    '.join(gen))
+        unit_impl = extract(rd('codegen/mod.rs'), r"^impl FieldCodegen<'_> for BitfieldUnit \{", what='impl FieldCodegen for BitfieldUnit')
+        mu = re.search(r'let access_spec = access_specifier\(unit_visibility\);', unit_impl)
+        if not mu:
+            raise SliceError('BitfieldUnit::codegen: `let access_spec = access_specifier(unit_visibility);` not found')
+        fn_open = unit_impl.index('{', unit_impl.index('M: Extend<proc_macro2::TokenStream>,'))
+        unit_tail = unit_impl[mu.end():match_brace(unit_impl, fn_open) - 1]
+        har = open(os.path.join(G, 'harness', 'c02.rs')).read().replace('/*GENERATED*/', '\n    '.join(gen)).replace('/*UNIT_TAIL*/', unit_tail)
+        # the tracker entry point for units gained an `offset` parameter with the repair of finding F14; the no-panic harness calls whichever form the tree has
+        two = re.search(r'fn saw_bitfield_unit\(\s*&mut self,\s*layout: Layout,\s*offset: Option<usize>', sl) is not None
+        har = har.replace('/*SAW_UNIT_MACRO*/', 'macro_rules! saw_unit { ($t:ident, $l:expr, $o:expr) => { %s } }' % ('{ let _ = $t.saw_bitfield_unit($l, $o); }' if two else '{ let _ = $o; $t.saw_bitfield_unit($l); }'))
         text = (pre + '\n' + m.group(0) + '\n' +
                 'pub mod layout_mod { use super::*; ' + layout + '}\npub(crate) use layout_mod::Layout;\n' +
                 'pub mod helpers { use super::*; ' + m2.group(0) + '\n' + blob + '\n' + integer_type + '\n' + bfu + '}\n' +
@@ -97,7 +112,7 @@ def build(tier, seed):
         kern.files = {'src/lib.rs': text}
         kern.harnesses = hs
         kern.encoded = [enc('codegen/struct_layout.rs', 'whole file', rd('codegen/struct_layout.rs')), enc('ir/layout.rs', 'whole file', rd('ir/layout.rs')),
-                        enc('codegen/helpers.rs', 'fn blob', blob_real), enc('codegen/helpers.rs', 'fn integer_type', integer_type), enc('codegen/helpers.rs', 'fn bitfield_unit', bfu),
+                        enc('codegen/helpers.rs', 'fn blob', blob_real), enc('codegen/helpers.rs', 'fn integer_type', integer_type), enc('codegen/helpers.rs', 'fn bitfield_unit', bfu), enc('codegen/mod.rs', 'BitfieldUnit::codegen: tail (member push, tracker notification)', unit_tail),
                         dict(enc('codegen/mod.rs', 'CompInfo::codegen driver region (hand model, pinned)', drv), modelled=True)]
         kern.stubs = ['BindgenContext{options().force_explicit_padding/enable_cxx_namespaces, target_pointer_size=8, generated_opaque_array no-op}',
                       'CompInfo{is_union,is_rust_union}, Type{layout,kind,canonical_type}: field stand-ins',
